@@ -204,6 +204,48 @@ func Check(d *fw.Driver, res *fw.Result, e *scen.Env, subs []*Sub, sig string) e
 	for _, s := range subs {
 		subOfTok[s.Tok] = s
 	}
+	// the forwarder's select-set bookkeeping, per server-role connection: every value and every close must
+	// carry the id announced for the handler channel it came from (Jrpc.Forwarder)
+	fwdBy := map[int][]map[string]interface{}{}
+	for _, ev := range evs {
+		var name string
+		switch ev.Site {
+		case "fwd.reg":
+			name = "reg"
+		case "fwd.val":
+			name = "val"
+		case "fwd.close":
+			name = "close"
+		default:
+			continue
+		}
+		fwdBy[ev.Conn] = append(fwdBy[ev.Conn], map[string]interface{}{"e": name, "hp": ev.KV["hp"], "id": ev.KV["ch"]})
+	}
+	for conn, fes := range fwdBy {
+		model, err := d.Ask(map[string]interface{}{"op": "forwarder", "events": fes})
+		if err != nil {
+			return err
+		}
+		mm := model.(map[string]interface{})
+		res.Traces++
+		res.Events += len(fes)
+		if mm["accepted"] != true {
+			idx := 0
+			if n, ok := mm["refusedAt"].(json.Number); ok {
+				v, _ := n.Int64()
+				idx = int(v)
+			}
+			lo := idx - 10
+			if lo < 0 {
+				lo = 0
+			}
+			// the implementation tagged a value (or a close) of one handler channel with the id announced for
+			// another: a concrete violation of isolation, not just a broken tie
+			res.Add(fw.Finding{Kind: "monitor", Signature: sig + " forwarder tags a channel's frame with another channel's id",
+				Detail: fmt.Sprintf("server connection %d: event %d %v — the handler channel it came from was announced to the client under a different id (select set and id table out of step)", conn, idx, fes[idx]),
+				Case:   map[string]interface{}{"forwarder_events": fes[lo : idx+1]}, Model: model})
+		}
+	}
 	for ch, mes := range byCh {
 		ask := map[string]interface{}{"op": "stream", "events": mes}
 		model, err := d.Ask(ask)
